@@ -8,7 +8,8 @@ live matching vs stored matching on both backends: for a set of filters, the eve
 the same filter returns when queried afterwards (ephemeral kinds and boundary timestamps excepted); connection
 identities are made to collide (all connections share an address and the random suffix is pinned) because the
 registry is keyed by them; large fan-outs (hundreds of open subscriptions on many connections) during which other
-connections' REQ / CLOSE / disconnect messages arrive at swept scheduling points of the EVENT's processing.
+connections' REQ / CLOSE / disconnect messages arrive at swept scheduling points of the EVENT's processing; the same event handed
+to several connections at overlapping times (it is accepted once, so every open matching subscription gets it once).
 """
 import copy
 import json
@@ -628,6 +629,183 @@ def large_fanout_burst(report, backend, rng, keys, tag, n_conns, per_conn):
         relay.close()
 
 
+# ------------------------------------------------------------------------------------------------------------
+# One event, several copies in flight at once.
+#
+# Everything above publishes an event on ONE connection (a resubmission arrives after the first copy has been answered, or
+# behind it on the same connection, where a handler takes one frame at a time).  But an event has no home connection: a client
+# that publishes through two sockets, two clients relaying a popular note, a bridge and its origin all hand the relay the same
+# event within the same instant, each to its own handler task — and those handlers run concurrently: "is it new?" is then
+# decided several times while none of the decisions has taken effect yet.  "Accepted" is a fact about the event, not about a
+# submission: however the copies race, the event is accepted once, so every open matching subscription is owed exactly one
+# push.  Here the copies of an event are handed to 2-3 different connections (sometimes twice to one of them) either in the
+# same loop turn or with the later copies a swept number of loop turns behind the first (0, 1, 2, 3, 4, 6, 9 ... : every
+# suspension point of the first copy's processing that the loop can fall into, the very beginning included), mixed with
+# different events submitted at the same moment (control: each of those is accepted and pushed on its own).
+def copies_in_flight(report, backend, rng, keys, tag, rounds):
+    """watchers with matching and non-matching subscriptions (ids shared between connections; one publisher is subscribed
+    itself); per round 1-2 new events, one of them submitted as several copies on different connections at overlapping times.
+    Oracle (reference registry + NIP-01 reference matcher), per event of the round: every connection gets one OK per EVENT it
+    sent; exactly one of the event's submissions is answered OK true, the others are refused as duplicates; every open
+    subscription gets the event exactly once under its own id if its filters match and not at all otherwise; a stored query
+    for its id returns it once."""
+    from lib import proto
+    from nostr_relay.storage.base import NostrQuery
+
+    relay = Relay(backend, subscription_limit=32)
+    pks = [k.public_key.hex() for k in keys]
+
+    def settle_fully(max_rounds=40):
+        for _ in range(max_rounds):
+            relay.settle()
+            if relay.quiescent():
+                return True
+        return False
+
+    def validate(fl):
+        return [NostrQuery.model_validate(copy.deepcopy(f)) for f in fl]
+
+    try:
+        pool = [{"kinds": [1]}, {"kinds": [1, 7, 30000]}, {"authors": [pks[0]]}, {"authors": [pks[1], pks[2]]}, {"#t": ["x"]}, {"#t": ["x", "y"]},
+                {"kinds": [30000]}, {"kinds": [7]}, {"authors": [pks[2]]}, {"#t": ["z"]}, {"kinds": [1], "since": T0 + 2000},
+                {"kinds": [40]}]      # every filter states a condition: what a filter without one is owed is left open (C05_live_empty_filter)
+        watchers = [Conn(relay, remote_addr="10.7.0.%d" % i, start=False) for i in range(rng.randint(1, 3))]
+        publishers = [Conn(relay, remote_addr="10.8.0.%d" % i, start=False) for i in range(3)]
+        for c in watchers + publishers:
+            c.task = relay.loop.create_task(c._main())
+        registry, setup = {}, []               # (conn no, sub id) -> raw filters   (reference registry)
+        for c in watchers:
+            for j in range(rng.randint(1, 5)):
+                fl = [rng.choice(pool) for _ in range(rng.choice([1, 1, 1, 2]))]
+                if c is watchers[0] and j == 0:
+                    fl = [{"kinds": [0, 1, 7, 30000]}]      # matches every event below: each round has a fan-out to look at
+                registry[(c.no, "s%d" % j)] = fl
+        if rng.random() < 0.6:                 # a publisher that listens too: its own event comes back to it once
+            registry[(publishers[0].no, "s0")] = [rng.choice(pool[:6])]
+        by_no = {c.no: c for c in watchers + publishers}
+        for (cn, sid), fl in registry.items():
+            setup.append([cn, sid, fl])
+            by_no[cn].send(["REQ", sid] + fl, settle=False)
+        if not settle_fully():
+            report.count("copies_setup_not_quiescent")
+        offsets = [0] + _sweep(60)
+        seq = 0
+        for rnd in range(rounds):
+            # ---- what is submitted where and when ----------------------------------------------------------------------
+            events = []
+            for _ in range(rng.choice([1, 1, 2])):
+                seq += 1
+                kind = rng.choice([1, 1, 1, 7, 30000, 0])        # regular, parameterised replaceable, replaceable; not ephemeral:
+                tags = [["t", rng.choice(["x", "y", "w"])]] if rng.random() < 0.6 else []   # an ephemeral event is never "already there"
+                if kind == 30000:
+                    tags.append(["d", "copies-%s-%d" % (tag, seq)])
+                events.append(relay.signed_event(keys[seq % 3] if kind == 0 else rng.choice(keys), kind=kind,
+                                                 content="several copies %s %s %d" % (backend, tag, seq), tags=tags,
+                                                 created_at=T0 + 1000 + seq * 10))
+            staggered = rng.random() < 0.5
+            subs = []                                # submissions: {"c": conn no, "event": index, "turn": loop turn of the hand-over}
+            n_copies = rng.choice([2, 2, 3])
+            for k, p in enumerate(rng.sample(publishers, n_copies)):
+                subs.append({"c": p.no, "event": 0, "turn": rng.choice(offsets) if staggered and k else 0})
+            if rng.random() < 0.3:                   # ... and once more on a connection that already carries a copy
+                subs.append({"c": subs[0]["c"], "event": 0, "turn": subs[0]["turn"]})
+            if len(events) > 1:                      # a different event at the same moment, once or as two copies
+                for p in rng.sample(publishers, rng.choice([1, 2])):
+                    subs.append({"c": p.no, "event": 1, "turn": rng.choice(offsets) if staggered else 0})
+            rng.shuffle(subs)
+            subs.sort(key=lambda s: s["turn"])
+            payload = {"backend": backend, "case": "copies-in-flight", "subscriptions": setup, "round": rnd, "events": events,
+                       "submissions": subs}
+            marks = {c.no: len(c.out) for c in relay.conns}
+
+            def answered(i):
+                return any(isinstance(f, list) and f and f[0] == "OK" and f[1] == events[i]["id"]
+                           for p in publishers for f in p.frames(marks[p.no]))
+
+            async def drive():
+                for turn in range(subs[-1]["turn"] + 1):
+                    for s in subs:
+                        if s["turn"] == turn:
+                            s["handed_over_before_any_answer"] = not answered(s["event"])
+                            by_no[s["c"]].send(["EVENT", events[s["event"]]], settle=False)
+                    await proto._real_sleep(0)
+
+            relay.run(drive())
+            if not settle_fully():
+                report.count("copies_not_quiescent")
+            # ---- the oracle -------------------------------------------------------------------------------------------
+            oks = {p.no: [f for f in p.frames(marks[p.no]) if isinstance(f, list) and f and f[0] == "OK"] for p in publishers}
+            for p in publishers:
+                sent_here = sum(1 for s in subs if s["c"] == p.no)
+                if len(oks[p.no]) != sent_here:
+                    report.property_failure("%s: a connection that sent %d EVENT messages while copies of the same event arrived on other "
+                                            "connections got %d OK frames: %s" % (backend, sent_here, len(oks[p.no]), json.dumps(oks[p.no])[:300]),
+                                            payload, None)
+            overlapped = 0
+            for i, ev in enumerate(events):
+                mine = [s for s in subs if s["event"] == i]
+                overlapped += sum(1 for s in mine if s["handed_over_before_any_answer"]) - 1
+                accepted = sum(1 for fs in oks.values() for f in fs if f[1] == ev["id"] and f[2] is True)
+                refusals = [f for fs in oks.values() for f in fs if f[2] is not True and f[1] in (ev["id"], "")]
+                where = "%d copies on connections %s at loop turns %s" % (len(mine), [s["c"] for s in mine], [s["turn"] for s in mine])
+                want_total = 0
+                missing, extra, unexpected = [], [], []
+                for c in relay.conns:
+                    got = Counter(f[1] for f in c.frames(marks[c.no]) if isinstance(f, list) and f and f[0] == "EVENT"
+                                  and isinstance(f[2], dict) and f[2].get("id") == ev["id"])
+                    for (cn, sid), fl in registry.items():
+                        if cn != c.no:
+                            continue
+                        want = 1 if any(spec.matches(q, ev, False) for q in validate(fl)) else 0
+                        want_total += want
+                        n = got.pop(sid, 0)
+                        if n < want:
+                            missing.append((cn, sid))
+                        elif n > want:
+                            (extra if want else unexpected).append((cn, sid, n))
+                    unexpected += [(c.no, sid, n) for sid, n in got.items()]
+                if extra or unexpected or (missing and accepted):
+                    report.property_failure(
+                        "%s: one event, %s, accepted %d time(s): %d open matching subscriptions got it more than once %s, %d never got it %s, "
+                        "%d pushes to subscriptions that do not match or do not exist %s (owed: exactly one push per open matching subscription)"
+                        % (backend, where, accepted, len(extra), extra[:4], len(missing), missing[:4], len(unexpected), unexpected[:4]),
+                        payload, None)
+                if accepted != 1:
+                    report.property_failure("%s: one valid new event, %s: answered OK true %d times (an event is accepted once; refusals: %s)"
+                                            % (backend, where, accepted, json.dumps(refusals)[:300]), payload, None)
+                report.count("copies_pushes_owed", want_total)
+            # refusals: the copies that lost are duplicates, nothing else
+            for fs in oks.values():
+                for f in fs:
+                    if f[2] is not True and not str(f[3]).startswith("duplicate"):
+                        report.count("copies_refused_for_another_reason")
+                        report.property_failure("%s: a copy of a valid event that was in flight on another connection was refused with %r, "
+                                                "not as a duplicate" % (backend, str(f[3])[:160]), payload, None)
+            # accepted = stored: a query for the ids returns each event once
+            n = len(publishers[1].out)
+            publishers[1].send(["REQ", "again", {"ids": [e["id"] for e in events]}], settle=False)
+            settle_fully()
+            stored = Counter(f[2].get("id") for f in publishers[1].frames(n) if isinstance(f, list) and f and f[0] == "EVENT" and f[1] == "again")
+            publishers[1].send(["CLOSE", "again"], settle=False)
+            settle_fully()
+            if any(stored.get(e["id"], 0) != 1 for e in events):
+                report.property_failure("%s: events submitted as several copies at once are returned %r times by a stored query for their ids"
+                                        % (backend, [stored.get(e["id"], 0) for e in events]), payload, None)
+            report.count("copies_rounds_" + backend)
+            report.count("copies_submissions", len(subs))
+            report.count("copies_handed_over_while_another_copy_was_unanswered", overlapped)
+            report.case(("copies", backend, tag, rnd, json.dumps(subs, sort_keys=True), json.dumps(setup, sort_keys=True)[:2000]),
+                        nontrivial=overlapped > 0,
+                        sample={"case": "copies-in-flight", "backend": backend, "open_subscriptions": len(registry),
+                                "submissions": [[s["c"], s["event"], s["turn"]] for s in subs], "overlapping_copies": overlapped})
+        for c in relay.conns:
+            if not c.done:
+                c.inbox.put_nowait(proto.DISCONNECT)
+        settle_fully()
+    finally:
+        relay.close()
+
+
 def run(report, tier, seed):
     rng = random.Random(seed)
     drv = common.Driver()
@@ -648,6 +826,10 @@ def run(report, tier, seed):
         "a new id, replacement, disconnect) whose arrival is swept over the scheduling points of the EVENT's processing (n-th loop "
         "turn / n-th task started by the publisher's handler / n-th live item queued, n = 1, 2, 3, 4, 6, 9 ... up to the number of "
         "open subscriptions); then a second event after everything has settled; "
+        "copies in flight: 1-3 watcher connections with 1-5 subscriptions each (matching and not, ids shared between connections, one "
+        "publisher subscribed itself), per round 1-2 new events (kinds 1, 7, 0, 30000), one of them handed to 2-3 different connections "
+        "(sometimes twice to one) in the same loop turn or 1, 2, 3, 4, 6, 9 ... 42 loop turns apart, before any copy is answered: one OK per "
+        "EVENT, one OK true per event and duplicate refusals otherwise, one push per open matching subscription, returned once by a stored query; "
         "non-trivial = something was pushed / matched")
     report.assumptions += ["settled sessions: quiescence after every message; trace sessions: whatever interleaving the event loop produces for a burst; all interleavings are covered by the theorems over `run`",
                            "NIP-26 delegation tokens are produced with aionostr's own signer",
@@ -676,6 +858,10 @@ def run(report, tier, seed):
         for i in range(8 if big else 2):
             n = rng.randint(6, 16 if big else 9)
             large_fanout_burst(report, "sql", rng, keys, i, n, [rng.choice([32, 32, rng.randint(20, 31)]) for _ in range(n)])
+        # one event, several copies in flight on different connections (after the cases above, for the same reason)
+        for i in range(30 if big else 3):
+            for backend in ("sql", "kv"):
+                copies_in_flight(report, backend, rng, keys, i, rounds=12 if big else 8)
     finally:
         drv.close()
 
